@@ -391,7 +391,8 @@ def c17(pid, tier, seed, t0):
     stages = [P("position-command", procmon2.c17_stage)]
     return run_stages(pid, tier, seed, t0, "exploration", stages,
                       required=("games_with_castle", "games_with_ep", "games_with_promo_q", "games_with_promo_r",
-                                "games_with_promo_b", "games_with_promo_n", "games_from_fen", "games_from_startpos"),
+                                "games_with_promo_b", "games_with_promo_n", "games_from_fen", "games_from_startpos",
+                                "games_with_session_step", "games_with_session_step_after_ucinewgame"),
                       assumptions=["games and expectations come from refchess; the en-passant field of the FEN dump is "
                                    "accepted under any single recording convention"])
 
